@@ -185,9 +185,12 @@ func (c *ColLowCardinality[T]) DecodeColumn(r *Reader, rows int) error {
 	}
 
 	c.Values = c.Values[:0]
+	// The dictionary as decoded, not the size on the wire: where int has 32
+	// bits the latter is truncated before it is checked and used.
+	dictRows := c.index.Rows()
 	for _, idx := range c.keys {
-		if int64(idx) >= indexRows || idx < 0 {
-			return errors.Errorf("key index out of range [%d] with length %d", idx, indexRows)
+		if idx >= dictRows || idx < 0 {
+			return errors.Errorf("key index out of range [%d] with length %d", idx, dictRows)
 		}
 		c.Values = append(c.Values, c.index.Row(idx))
 	}
